@@ -2,6 +2,8 @@ mod c04;
 mod c05;
 mod sexp;
 mod lexutil;
+mod nf;
+mod pipe;
 mod util;
 
 fn main() {
@@ -19,6 +21,18 @@ fn main() {
     let sink = match cmd {
         "c04" => c04::run(&tier, seed),
         "c05" => c05::run(&tier, seed),
+        "pipe" => pipe::run(&tier, seed),
+        "nf" => {
+            use std::io::Read;
+            let mut src = String::new();
+            std::io::stdin().read_to_string(&mut src).unwrap();
+            let c = util::cfg_from_string(args.get(2).map(|s| s.as_str()).unwrap_or(""));
+            match util::parse(&src, c.syntax) {
+                Some(a) => println!("{}", nf::normal_form(a)),
+                None => println!("<parse error>"),
+            }
+            return;
+        }
         "fmt" => {
             // ad-hoc: hx fmt "<config string>" < input
             use std::io::Read;
